@@ -2,7 +2,7 @@
 From Coq Require Import List ZArith Bool.
 From Coq Require String.
 Import String.StringSyntax.
-From YS Require Import Base.Sexp Container.QueueWire Syntax.Indent Yarn.RunnerWire Markup.MarkupWire Yarn.BuiltinWire Yarn.BridgeWire Syntax.TextLineWire Syntax.ExprWire.
+From YS Require Import Base.Sexp Container.QueueWire Syntax.Indent Yarn.RunnerWire Markup.MarkupWire Yarn.BuiltinWire Yarn.BridgeWire Syntax.TextLineWire Syntax.ExprWire Syntax.StmtWire.
 Import ListNotations.
 Local Open Scope string_scope.
 
@@ -31,6 +31,7 @@ Definition dispatch (e : sexp) : sexp :=
       else if tag_is t "parse" then run_parse_case args
       else if tag_is t "wait" then run_wait_case args
       else if tag_is t "exprparse" then run_exprparse_case args
+      else if tag_is t "stmtparse" then run_stmtparse_case args
       else bad "unknown family"
   | None => bad "not a tagged list"
   end.
